@@ -3,7 +3,6 @@ package main
 import (
 	"flag"
 	"fmt"
-	"os"
 	"runtime"
 	"time"
 
@@ -28,15 +27,15 @@ func e2(a, b string) [2]string { return [2]string{a, b} }
 
 // connected graphs up to isomorphism on 2, 3 and 4 labelled nodes (G, N1, N2, N3)
 var topologies = map[string][][2]string{
-	"pair":       {e2("G", "N1")},
-	"path3":      {e2("G", "N1"), e2("N1", "N2")},
-	"triangle":   {e2("G", "N1"), e2("N1", "N2"), e2("G", "N2")},
-	"path4":      {e2("G", "N1"), e2("N1", "N2"), e2("N2", "N3")},
-	"star4":      {e2("G", "N1"), e2("G", "N2"), e2("G", "N3")},
-	"cycle4":     {e2("G", "N1"), e2("N1", "N2"), e2("N2", "N3"), e2("N3", "G")},
-	"paw4":       {e2("G", "N1"), e2("N1", "N2"), e2("G", "N2"), e2("N2", "N3")},
-	"diamond4":   {e2("G", "N1"), e2("N1", "N2"), e2("N2", "N3"), e2("N3", "G"), e2("G", "N2")},
-	"complete4":  {e2("G", "N1"), e2("G", "N2"), e2("G", "N3"), e2("N1", "N2"), e2("N1", "N3"), e2("N2", "N3")},
+	"pair":      {e2("G", "N1")},
+	"path3":     {e2("G", "N1"), e2("N1", "N2")},
+	"triangle":  {e2("G", "N1"), e2("N1", "N2"), e2("G", "N2")},
+	"path4":     {e2("G", "N1"), e2("N1", "N2"), e2("N2", "N3")},
+	"star4":     {e2("G", "N1"), e2("G", "N2"), e2("G", "N3")},
+	"cycle4":    {e2("G", "N1"), e2("N1", "N2"), e2("N2", "N3"), e2("N3", "G")},
+	"paw4":      {e2("G", "N1"), e2("N1", "N2"), e2("G", "N2"), e2("N2", "N3")},
+	"diamond4":  {e2("G", "N1"), e2("N1", "N2"), e2("N2", "N3"), e2("N3", "G"), e2("G", "N2")},
+	"complete4": {e2("G", "N1"), e2("G", "N2"), e2("G", "N3"), e2("N1", "N2"), e2("N1", "N3"), e2("N2", "N3")},
 }
 
 var topoNodes = map[string][]string{
@@ -57,8 +56,10 @@ func gossipRuns(id, tier string) []gRun {
 			for _, origin := range topoNodes[t] {
 				for _, it := range items {
 					dup := len(topoNodes[t]) <= 3
+					// the duplicate-suppression window may lapse once per node on the cyclic 4-node graphs (single vertex item)
+					expire := it == "vertex" && (t == "cycle4" || t == "diamond4" || t == "triangle")
 					out = append(out, gRun{fmt.Sprintf("%s/origin=%s/%s", t, origin, it),
-						gnet.Cfg{Nodes: topoNodes[t], Edges: topologies[t], Origin: origin, Items: it, Dup: dup, Prop: "C11"}, 40})
+						gnet.Cfg{Nodes: topoNodes[t], Edges: topologies[t], Origin: origin, Items: it, Dup: dup, Expire: expire, Prop: "C11"}, 40})
 				}
 			}
 		}
@@ -96,28 +97,31 @@ func gossipMain(id string, args []string) int {
 	run := fs.String("run", "", "only this run")
 	fs.Parse(args)
 	runs := gossipRuns(id, common.Tier())
-	if fs.NArg() >= 2 && fs.Arg(0) == "worker" {
-		for _, r := range runs {
-			if r.name == fs.Arg(1) {
-				space.Opt.KeyFunc = world.KeyFunc
-				space.WorkerMain(gnet.New(r.cfg))
-				return 0
+	if fs.NArg() >= 1 && fs.Arg(0) == "worker" {
+		space.Opt.KeyFunc = world.KeyFunc
+		space.WorkerMainMulti(func(tag string) space.Model {
+			for _, r := range runs {
+				if r.name == tag {
+					return gnet.New(r.cfg)
+				}
 			}
-		}
-		fmt.Fprintln(os.Stderr, "unknown run", fs.Arg(1))
-		return 2
+			return nil
+		})
+		return 0
 	}
 	rep := common.NewReport(id, "model_checking")
 	deadline := common.Deadline(240*time.Second, 60*time.Minute)
 	total := &space.Stats{Exhaustive: true, Counters: map[string]int{}, PerKind: map[string]int{}, Results: map[string]int{}}
 	perRun := map[string]any{}
 	terminated := 0
+	pool := space.NewPool([]string{id, "worker"}, *procs)
+	defer pool.Close()
 	for _, r := range runs {
 		if *run != "" && r.name != *run {
 			continue
 		}
 		frep := &filterRep{rep: rep, id: id, run: r.name}
-		st := space.SearchF(frep.add, rep.Sample, []string{id, "worker", r.name}, r.depth, *procs, deadline, 200)
+		st := space.SearchP(pool, r.name, frep.add, rep.Sample, r.depth, deadline, 200)
 		term := st.Exhaustive && st.FrontierLeft == 0
 		if term {
 			terminated++
@@ -155,7 +159,7 @@ func gossipMain(id string, args []string) int {
 	rep.Set("runs_in_which_every_path_reaches_quiescence", terminated)
 	rep.Assume("a gossip RPC is fire-and-forget (the sender only logs the reply); GetVertex issued while fetching a missing parent is one atomic step against the peer's real handler")
 	rep.Assume("per-peer sender goroutines and missing-parent tasks run eagerly to quiescence inside the event that spawned them")
-	rep.Assume("flashback / awaiting life windows do not elapse during an execution")
+	rep.Assume("flashback / awaiting life windows do not elapse by themselves; on the cyclic topologies (single-vertex item) each node's duplicate-suppression window may lapse once, as an explicit event")
 	if total.Diverged > 0 {
 		rep.Finish()
 		return 2
